@@ -415,13 +415,27 @@ func (c *ServerChannel) FinishSession(ctx context.Context) error {
 
 	err := c.sendSession(ctx, &ses)
 
-	c.setState(SessionStateFinished)
+	return c.endSession(ctx, SessionStateFinished, err)
+}
 
+// endSession sets the terminal state, stops the receiver and closes the transport.
+// The receiver may only notice that it was stopped at its next I/O poll: it is awaited
+// no longer than the context allows, closing the transport makes it return at once.
+func (c *ServerChannel) endSession(ctx context.Context, state SessionState, sendErr error) error {
+	c.setStateWLock(state)
+	c.signalStopReceiver(ctx)
+
+	err := sendErr
 	if err == nil {
 		if err = c.transport.Close(); err != nil {
 			err = fmt.Errorf("closing the transport failed: %w", err)
 		}
+	} else if ctx.Err() != nil && c.transport.Connected() {
+		// The receiver was not awaited; the channel is over anyway, release the connection
+		_ = c.transport.Close()
 	}
+
+	c.setState(state)
 
 	return err
 }
@@ -441,15 +455,7 @@ func (c *ServerChannel) FailSession(ctx context.Context, reason *Reason) error {
 	}
 	err := c.sendSession(ctx, &ses)
 
-	c.setState(SessionStateFailed)
-
-	if err == nil {
-		if err = c.transport.Close(); err != nil {
-			err = fmt.Errorf("closing the transport failed: %w", err)
-		}
-	}
-
-	return err
+	return c.endSession(ctx, SessionStateFailed, err)
 }
 
 // Source: https://github.com/juliangruber/go-intersect
